@@ -155,9 +155,27 @@ func record(n int, seed int64, only string) {
 				w.guarded(id, func() string { w.b.Wait(ctx); return "ok" })
 			}()
 		}
-		sw.Wait()
+		// wait for the drivers - or for a fixed point in which some of them are blocked for good (a stalled
+		// broker must show up as an observation, not hang the recorder)
+		drivers := make(chan struct{})
+		go func() { sw.Wait(); close(drivers) }()
+	waiting:
+		for {
+			select {
+			case <-drivers:
+				break waiting
+			default:
+				if _, err := rt.QuiesceBudget(40); err == nil {
+					break waiting
+				}
+			}
+		}
 		// live fixed point (not reachable when two idle workers share a Deque condition variable)
-		if snap, err := rt.QuiesceBudget(600); err == nil {
+		budget := 600
+		if (cfg.A == "deque" || cfg.A == "nbdeque" || cfg.A == "lifo") && cfg.W >= 2 {
+			budget = 120 // idle workers on one Deque condition variable keep signalling each other: do not insist
+		}
+		if snap, err := rt.QuiesceBudget(budget); err == nil {
 			lib := w.libGoroutines(snap)
 			w.rec.Log(rt.Event{"ev": "quiescent", "blocked": w.pending(), "depth": w.depth(), "live": len(lib), "where": where(lib)})
 		}
